@@ -63,6 +63,17 @@ def getIdx {α : Type} (l : List α) (i : Int) : Except Exc α :=
     | some a => .ok a
     | none => .error (.py .indexError)
 
+/-- `d[k]` for a small local dictionary kept as an association list; KeyError when absent -/
+def assocGet {β : Type} (d : List (Int × β)) (k : Int) : Except Exc β :=
+  match d.find? (fun kv => kv.1 == k) with
+  | some kv => .ok kv.2
+  | none => .error .key
+
+/-- `sorted(l, reverse=r)` for ints -/
+def sortedInts (l : List Int) (r : Bool) : List Int :=
+  let s := l.mergeSort (fun a b => decide (a ≤ b))
+  if r then s.reverse else s
+
 /-- `l[i] = v`; IndexError outside `-len ≤ i < len` -/
 def setIdx {α : Type} (l : List α) (i : Int) (v : α) : Except Exc (List α) :=
   let j := if i < 0 then (l.length : Int) + i else i
